@@ -1,18 +1,15 @@
 """C19 - invalid configuration is rejected up front with ValueError.
 
-The constructors of the configuration classes are interpreted (model interpreter of sa/rules/c17.py with a small model of
-pydantic's BaseModel.__init__: before-validators, after-validators, model validators, defaults) on sample values:
-
-R19.1 for every constrained field named by the property an invalid value (unknown keyword, non-positive number, bad length)
-      makes construction raise ValueError (pydantic's ValidationError included) in scalar, flat-list and nested-list position
-      (a position-specific miss is reported as R19.4, a boundary-only miss (0 accepted, negatives rejected) as R19.5), for the
-      class that declares the field and for the concrete components inheriting it;
-R19.2 every raise in validator-like functions constructs ValueError / FileNotFoundError; an exception of another type observed
-      while constructing with an invalid value is reported here too;
-R19.3 every cls./self. attribute read in a raising validator resolves;
-R19.6 the validator's legal set is contained in the emitter's table;
-R19.7 document-level checks observed by interpretation: grouping columns missing from the data (single and multi-section),
-      df xor figure, list-length mismatches, new_page without page_by, missing figure file.
+R19.1 (A) rejection coverage per constrained field: the validators reaching the field are evaluated symbolically (SDT, sa/rules/c17.py) on an
+      uninterpreted value; for each admitted position (scalar / flat list / nested list: the generic element of the traversal) and each region of
+      the constraint kind every valuation of the remaining conditions must raise ValueError; R19.4 = a position-specific miss, R19.5 = the
+      boundary 0 is accepted while negatives are rejected;
+R19.2 (S) every raise in validator-like functions constructs ValueError / FileNotFoundError (an exception of another type on a rejecting path of
+      R19.1 is reported here too); R19.3 (S) every cls./self. attribute read in a raising validator resolves;
+R19.6 (A, exhaustive over finite tables) the validator's legal set is contained in the emitter's table;
+R19.7 (A) document-level checks as decision tables over symbolic conditions: df xor figure, list-ness and length agreement of multi-section
+      arguments, every grouping attribute that is set has its generic column in df.columns (single and multi section), new_page without page_by,
+      missing figure file.
 """
 from __future__ import annotations
 
@@ -115,786 +112,462 @@ def _resolve_local(fi: FuncInfo, e: ast.AST) -> ast.AST:
     return e
 
 
-def _table_matches(pm, fi: FuncInfo, container: ast.AST, expected) -> bool:
-    container = _resolve_local(fi, container)
-    text = unparse(container)
+
+
+# ================================================================================================================
+# symbolic rejection coverage (SDT of sa/rules/c17.py)
+# ================================================================================================================
+from fractions import Fraction  # noqa: E402
+
+from ..dtab import Sym, Unsupported  # noqa: E402
+from .c05 import CallSym, Init, lin_of, lin_sub, path_of  # noqa: E402
+from .c17 import SDT, cover_rows, declare_sdt, exc_mro, sdt_env, show, sparts  # noqa: E402
+
+UNDET = object()
+REGIONS = {"member": ["outside the legal set"], "letters": ["a letter outside the legal set"], "color": ["a non-empty string that is no colour"],
+           "positive": ["negative", "zero"], "length": ["empty", "shorter", "longer"]}
+CONCRETE = {"TextAttributes": ["RTFPageHeader", "RTFPageFooter", "RTFTitle", "RTFSubline", "RTFBody", "RTFColumnHeader", "RTFFootnote", "RTFSource"],
+            "TableAttributes": ["RTFBody", "RTFColumnHeader", "RTFFootnote", "RTFSource"]}
+_OPN = {ast.Lt: "<", ast.LtE: "<=", ast.Gt: ">", ast.GtE: ">=", ast.Eq: "==", ast.NotEq: "!="}
+_LISTY = {"list", "Sequence", "MutableSequence", "Iterable", "Collection", "Sized", "Container"}
+
+
+class Evaluator:
+    """symbolic evaluation of validators / construction hooks, cached per function"""
+
+    def __init__(self, ctx: Ctx):
+        self.ctx, self.pm = ctx, ctx.pm
+        self.cache: dict[str, tuple] = {}
+
+    def rows(self, fi: FuncInfo, limit: int = 30000):
+        if fi.short not in self.cache:
+            dt = SDT(self.pm)
+            try:
+                rows = dt.table_rows(fi.node.body, sdt_env(fi), fi, limit=limit)
+            except Unsupported as e:
+                self.cache[fi.short] = (dt, None, str(e))
+            else:
+                self.cache[fi.short] = (dt, rows, "")
+                cover_rows(self.ctx, fi.short, rows)
+        return self.cache[fi.short]
+
+
+def _ok_exc(pm, et: str) -> bool:
+    m = exc_mro(pm, et)
+    return "ValueError" in m or "FileNotFoundError" in m
+
+
+def elem_types(ann: str) -> set[str]:
+    import re
+    return {t for t in re.findall(r"[A-Za-z_][A-Za-z_0-9]*", ann) if t in ("str", "int", "float", "bool")} or {"str", "int", "float"}
+
+
+def shapes_of(ann: str, kind: str) -> list[str]:
+    a = ann.replace(" ", "")
+    if kind == "length":
+        return ["whole"]
+    out = []
+    import re
+    if re.search(r"(list|Sequence|tuple|MutableSequence)\[(list|Sequence|tuple|MutableSequence)\[", a):
+        out.append("nested")
+    alts = a.split("|")
+    if any(re.match(r"(list|Sequence|tuple|MutableSequence)\[(?!list\[|Sequence\[|tuple\[|MutableSequence\[)", p) for p in alts):
+        out.append("flat")
+    if any(p in ("str", "int", "float", "bool") or p.startswith("Literal[") for p in alts):
+        out.append("scalar")
+    return out or ["scalar"]
+
+
+class Info:
+    def __init__(self, root: str, shape: str, kind: str, region: str, expected, etypes: set[str]):
+        self.root, self.shape, self.kind, self.region, self.expected, self.etypes = root, shape, kind, region, expected, etypes
+        d = {"scalar": 0, "whole": 0, "flat": 1, "nested": 2}[shape]
+        self.x = root + "[κ]" * d
+        self.tested = self.x + ("[κ]" if kind == "letters" else "")
+        self.typing = {root: "list" if d else "E"}
+        if d >= 1:
+            self.typing[root + "[0]"] = "list" if d == 2 else "E"
+            self.typing[root + "[κ]"] = "list" if d == 2 else "E"
+            self.typing[root + "[-1]"] = "list" if d == 2 else "E"
+        if d == 2:
+            for a in ("[0]", "[κ]"):
+                for b in ("[0]", "[κ]"):
+                    self.typing[root + a + b] = "E"
+        if shape == "whole":
+            self.typing[root] = "list"
+        self.containers = {p for p, t in self.typing.items() if t == "list"}
+
+
+def _interval(info: Info):
+    """(lo, lo_inclusive, hi, hi_inclusive) of x (positive) / len(x) (length) in the region"""
+    if info.kind == "positive":
+        return (None, False, 0, False) if info.region == "negative" else (0, True, 0, True)
+    n = info.expected
+    if info.region == "empty":
+        return (0, True, 0, True)
+    if info.region == "shorter":
+        return (1, True, n - 1, True)
+    return (n + 1, True, None, False)
+
+
+def _cmp_on_interval(a, c, op: str, iv):
+    """truth of a*t + c `op` 0 for all t in the interval, UNDET if it varies"""
+    lo, loi, hi, hii = iv
+    if a == 0:
+        vals = [(c, True)]
+        lo_v = hi_v = (c, True)
+    else:
+        ends = [(None if lo is None else a * lo + c, loi), (None if hi is None else a * hi + c, hii)]
+        if a < 0:
+            ends.reverse()
+        lo_v, hi_v = ends
+    mn, mni = lo_v
+    mx, mxi = hi_v
+
+    def gt0(strict: bool):
+        # all values > 0 (or >= 0)?
+        if mn is not None and (mn > 0 or (mn == 0 and (not strict or not mni))):
+            return True
+        if mx is not None and (mx < 0 or (mx == 0 and (strict or not mxi))):
+            return False
+        return UNDET
+    if op == ">":
+        return gt0(True)
+    if op == ">=":
+        return gt0(False)
+    if op in ("<", "<="):
+        # negate the form
+        r = _cmp_on_interval(-a, -c, ">" if op == "<" else ">=", iv)
+        return r
+    if op in ("==", "!="):
+        point = mn is not None and mx is not None and mn == mx
+        if point:
+            eq = mn == 0
+        elif (mn is not None and (mn > 0 or (mn == 0 and not mni))) or (mx is not None and (mx < 0 or (mx == 0 and not mxi))):
+            eq = False
+        else:
+            return UNDET
+        return eq if op == "==" else not eq
+    return UNDET
+
+
+def determined(dt: SDT, key: str, info: Info):
+    """the truth value an atom must have when the value has the shape and x lies in the region; UNDET if free"""
+    rec = dt.cmp.get(key)
+    if rec is not None:
+        k0 = rec[0]
+        if k0 == "is None":
+            p = path_of(rec[1])
+            return False if (p in info.typing or p == info.x) else UNDET
+        if k0 == "truth":
+            s = rec[1]
+            p = path_of(s)
+            if p in info.containers and p != info.x:
+                return True
+            if p == info.x or (info.shape == "whole" and p == info.root):
+                if info.kind == "positive":
+                    return info.region == "negative"
+                if info.kind == "length":
+                    return info.region != "empty"
+                if info.kind == "color":
+                    return True
+                if info.kind == "member" and "str" in info.etypes and isinstance(info.expected, (set, frozenset)) and "" in info.expected:
+                    return True
+                return UNDET
+            if info.kind == "color" and isinstance(s, CallSym) and "color" in s.meth.lower() and any(path_of(a) == info.x for a in s.args):
+                return False if ("valid" in s.meth.lower() or s.meth.lower().startswith("is_")) else UNDET
+            return UNDET
+        if k0 == "member":
+            term, cont = rec[1], rec[2]
+            if path_of(term) != info.tested:
+                return UNDET
+            if info.kind in ("member", "letters"):
+                if isinstance(cont, Sym) or not isinstance(info.expected, (set, frozenset)):
+                    return UNDET
+                try:
+                    keys = set(cont)
+                except TypeError:
+                    return UNDET
+                return False if keys <= info.expected else UNDET
+            if info.kind == "color":
+                return False
+            return UNDET
+        if isinstance(k0, type) and k0 in (ast.Eq, ast.NotEq) and info.kind in ("member", "letters", "color") and isinstance(info.expected, (set, frozenset)):
+            l, r = rec[1], rec[2]
+            c = r if path_of(l) == info.tested and not isinstance(r, Sym) else (l if path_of(r) == info.tested and not isinstance(l, Sym) else UNDET)
+            if c is not UNDET and isinstance(c, (str, int, float)):
+                if c in info.expected:
+                    return k0 is ast.NotEq        # x is outside the legal set, c inside: x != c
+                return UNDET
+        if isinstance(k0, type) and k0 in _OPN and info.kind in ("positive", "length"):
+            dl, dr = lin_of(rec[1]), lin_of(rec[2])
+            if dl is None or dr is None:
+                return UNDET
+            d = lin_sub(dl, dr)
+            want = info.x if info.kind == "positive" else f"len({info.x})"
+            syms = [k for k in d if k != ""]
+            if syms != [want]:
+                return UNDET
+            return _cmp_on_interval(Fraction(d[want]), Fraction(d.get("", 0)), _OPN[k0], _interval(info))
+        return UNDET
+    import re
+    m = re.match(r"^isinstance\((.+), ([\w|.]+)\)$", key)
+    if m:
+        subj, names = m.group(1), set(m.group(2).split("|"))
+        tag = info.typing.get(subj)
+        if tag is None:
+            return UNDET
+        if tag == "list":
+            return bool(names & _LISTY)
+        exp = set(names)
+        if names & {"Sequence", "Iterable", "Collection", "Container", "Sized"}:
+            exp.add("str")
+        if names & {"Number", "Real", "Complex"}:
+            exp |= {"int", "float"}
+        if "int" in exp:
+            exp.add("bool")
+        et = set(info.etypes)
+        if et <= exp:
+            return True
+        if not (et & exp):
+            return False
+        return UNDET
+    return UNDET
+
+
+def classify(pm, dt: SDT, rows, info: Info):
+    """('covered' | 'accepts' | 'mixed' | 'wrong-exception' | 'untested', detail)"""
+    cons = []
+    for r in rows:
+        ok = True
+        for key, val in r["val"].items():
+            want = determined(dt, key, info)
+            if want is not UNDET and want != val:
+                ok = False
+                break
+        if ok:
+            cons.append(r)
+    if not cons:
+        return "untested", "no valuation is consistent with this shape"
+    rej, bad, acc = [], [], []
+    for r in cons:
+        o = r["outcome"]
+        if isinstance(o, tuple) and o[0] == "raise":
+            (rej if _ok_exc(pm, o[1]) else bad).append(r)
+        else:
+            acc.append(r)
+    tested = any((dt.cmp.get(k) or ("",))[0] in ("member", "truth") + tuple(_OPN) and info.x in k for r in cons for k in r["val"])
+    if bad and not acc:
+        return "wrong-exception", f"raises {bad[0]['outcome'][1]} (`{str(bad[0]['outcome'][2])[:60]}`)"
+    if not acc and not bad:
+        return "covered", f"{len(rej)} valuation(s), all raise {sorted({r['outcome'][1] for r in rej})}"
+    if not rej and not bad:
+        return "accepts", ("the value is never tested" if not tested else "the test(s) on the value do not reject this region") + f" ({len(acc)} accepting valuation(s))"
+    # mixed: which free conditions separate rejection from acceptance?
+    free = sorted({k for r in acc for k, v in r["val"].items() if determined(dt, k, info) is UNDET})
+    recognised = [k for k in free if (dt.cmp.get(k) or ("",))[0] == "member" and path_of(dt.cmp[k][1]) == info.tested and not isinstance(dt.cmp[k][2], Sym)]
+    if recognised:
+        cont = dt.cmp[recognised[0]][2]
+        extra = sorted(map(str, set(cont) - set(info.expected)))[:4] if isinstance(info.expected, (set, frozenset)) else []
+        return "accepts", f"tested against {dt.table_name(cont)} which admits {extra} outside the legal set"
+    eqs = []
+    for k in free:
+        rec = dt.cmp.get(k)
+        if rec and rec[0] in (ast.Eq, ast.NotEq) and info.kind in ("member", "letters"):
+            c = rec[2] if path_of(rec[1]) == info.tested else (rec[1] if path_of(rec[2]) == info.tested else None)
+            if isinstance(c, (str, int, float)) and isinstance(info.expected, (set, frozenset)) and c not in info.expected:
+                if any((r["val"].get(k) is True) == (rec[0] is ast.Eq) for r in acc if k in r["val"]):
+                    eqs.append(c)
+    if eqs:
+        return "accepts", f"the value {eqs[0]!r}, which is outside the legal set, is let through"
+    comp = [k for k in free if (dt.cmp.get(k) or ("",))[0] == "member" and path_of(dt.cmp[k][1]) == info.x + "[κ]" and not isinstance(dt.cmp[k][2], Sym)]
+    if comp and info.kind == "member" and "str" in info.etypes and isinstance(info.expected, (set, frozenset)):
+        cont = dt.cmp[comp[0]][2]
+        letters = [c for c in cont if isinstance(c, str) and len(c) == 1]
+        ex = next((a + b for a in letters for b in letters if a + b not in info.expected), None)
+        if ex is not None:
+            return "accepts", f"only the characters of the value are tested against {dt.table_name(cont)}, not the value itself: e.g. {ex!r} is composed of legal letters but is not a legal keyword"
+    a0 = acc[0]
+    return "mixed", "accepted when " + ", ".join(f"{k[:50]}={v}" for k, v in a0["val"].items() if determined(dt, k, info) is UNDET)[:200]
+
+
+def expected_set(pm, cls: str, kind: str, expected):
+    """the legal set of a member/letters row as a set (None if it cannot be read from the source)"""
+    if kind not in ("member", "letters"):
+        return expected
+    if isinstance(expected, list):
+        return frozenset(expected)
     if expected == "font-types":
-        return "_font_type" in text or "get_font_table" in text or "RTF_FONT_NAMES" in text
-    if isinstance(expected, str):
+        try:
+            from ..consteval import const_call
+            t = const_call(pm, "FontMapping.get_font_table")
+            return frozenset(t["type"]) if isinstance(t, dict) and "type" in t else None
+        except AnalysisError:
+            return None
+    from ..consteval import const_name
+    names = [expected] if not expected.startswith("*") else ["ROW_" + expected[1:], "TEXT_" + expected[1:]]
+    out = set()
+    for nm in names:
+        v = const_name(pm, "rtflite.row", nm)
+        if v is NOC:
+            return None
+        out |= set(v)
         if expected.startswith("*"):
-            return text.split(".")[-1].endswith(expected[1:])
-        return text.split(".")[-1] == expected
-    val = const_expr(pm, fi.module, container)
-    if val is NOC:
-        return False
-    try:
-        return sorted(val) == sorted(expected)
-    except TypeError:
-        return False
+            break                       # cell justification: the row table is the legal set
+    return frozenset(out)
 
 
-def _kind_ok(pm, fi: FuncInfo, kind: str, expected) -> tuple[bool, str]:
-    """does the validator contain a ValueError raise guarded by a test of this kind?"""
-    for r, tests in guarded_raises(fi):
-        if exc_name(r) not in OK_EXC:
+def declared_cover(pm, cls: str, field: str, kind: str, region: str, exp) -> str | None:
+    """constraint carried by the declaration itself (Literal, Field bounds, length bounds)"""
+    d = pm.field_decl(cls, field)
+    if d is None:
+        return None
+    for n in ast.walk(d.annotation):
+        if isinstance(n, ast.Subscript) and dotted(n.value).split(".")[-1] == "Literal" and kind == "member":
+            elts = n.slice.elts if isinstance(n.slice, ast.Tuple) else [n.slice]
+            vals = {e.value for e in elts if isinstance(e, ast.Constant)}
+            if isinstance(exp, (set, frozenset)) and vals and vals <= set(exp) | {None}:
+                return f"Literal{sorted(map(str, vals))}"
+        if isinstance(n, ast.Name) and kind == "positive" and n.id in ("PositiveInt", "PositiveFloat"):
+            return n.id
+    calls = [c for c in ast.walk(d) if isinstance(c, ast.Call) and dotted(c.func).split(".")[-1] in ("Field", "conlist", "confloat", "conint", "Gt", "Ge", "MinLen", "MaxLen", "Len")]
+    for c in calls:
+        kw = {k.arg: (k.value.value if isinstance(k.value, ast.Constant) else None) for k in c.keywords if k.arg}
+        if kind == "positive":
+            if kw.get("gt") is not None and kw["gt"] >= 0:
+                return f"Field(gt={kw['gt']})"
+            if kw.get("ge") is not None and (kw["ge"] > 0 or (kw["ge"] == 0 and region == "negative")):
+                return f"Field(ge={kw['ge']})"
+        if kind == "length":
+            if region in ("empty", "shorter") and kw.get("min_length") == exp:
+                return f"min_length={exp}"
+            if region == "longer" and kw.get("max_length") == exp:
+                return f"max_length={exp}"
+    return None
+
+
+def construction_hooks(pm, cls: str) -> list[FuncInfo]:
+    """functions that run on every construction after the field validators: __init__ of the package (after super().__init__),
+    model_validator(mode='after'), model_post_init"""
+    out = []
+    init = pm.find_method(cls, "__init__")
+    if init is not None:
+        out.append(init)
+    for c in pm.mro(cls):
+        ci = pm.classes.get(c)
+        if not ci:
             continue
-        for test, in_body in tests:
-            if not in_body:
-                continue
-            for c in ast.walk(test):
-                if kind == "member" and isinstance(c, ast.Compare) and len(c.ops) == 1 and isinstance(c.ops[0], ast.NotIn):
-                    if _table_matches(pm, fi, c.comparators[0], expected):
-                        return True, unparse(test)
-                if kind == "color" and isinstance(c, ast.Call) and dotted(c.func).endswith("validate_color"):
-                    # must be negated: `not color_service.validate_color(x)`
-                    p = getattr(c, "_parent", None)
-                    if isinstance(p, ast.UnaryOp) and isinstance(p.op, ast.Not):
-                        return True, unparse(test)
-                if kind == "positive" and isinstance(c, ast.Compare) and len(c.ops) == 1:
-                    op, rhs = c.ops[0], c.comparators[0]
-                    if isinstance(rhs, ast.Constant) and rhs.value == 0 and isinstance(op, ast.LtE):
-                        return True, unparse(test)
-                    if isinstance(c.left, ast.Constant) and c.left.value == 0 and isinstance(op, ast.GtE):
-                        return True, unparse(test)
-                if kind == "length" and isinstance(c, ast.Compare) and len(c.ops) == 1 and isinstance(c.ops[0], ast.NotEq):
-                    l, rr = c.left, c.comparators[0]
-                    if isinstance(l, ast.Call) and dotted(l.func) == "len" and isinstance(rr, ast.Constant) and rr.value == expected:
-                        return True, unparse(test)
+        for fi in ci.methods.values():
+            if fi.model_validator_mode() == "after" or fi.name == "model_post_init":
+                out.append(fi)
+    return out
+
+
+def r19_1(ctx: Ctx, ev: Evaluator) -> None:
+    pm = ctx.pm
+    for cls, field, kind, expected in MATRIX:
+        decl = pm.field_decl(cls, field)
+        if decl is None:
+            ctx.gap("R19.1", f"matrix row {cls}.{field}: the field is no longer declared")
+            continue
+        ann = unparse(decl.annotation)
+        exp = expected_set(pm, cls, kind, expected)
+        if kind in ("member", "letters") and exp is None:
+            ctx.gap("R19.1", f"{cls}.{field}: the legal set {expected} could not be read from the source")
+            continue
+        shapes = shapes_of(ann, kind)
+        etypes = elem_types(ann)
+        owners = [cls] + [c for c in CONCRETE.get(cls, []) if c in pm.classes and pm.field_decl(c, field) is not None]
+        vsets = {}
+        for o in owners:
+            vs = validators_for(pm, o, field)
+            vsets.setdefault(tuple(v.short for v in vs), (o, vs))
+        for names, (owner, vs) in vsets.items():
+            results = {}
+            for shape in shapes:
+                for region in REGIONS[kind]:
+                    why = declared_cover(pm, owner, field, kind, region, exp)
+                    if why:
+                        results[(shape, region)] = ("covered", "declaration: " + why, None)
+                        continue
+                    best = None
+                    for fi in vs:
+                        dt, rows, err = ev.rows(fi)
+                        if rows is None:
+                            best = best or ("unknown", f"{fi.short}: {err}", fi)
+                            continue
+                        a = fi.node.args
+                        ps = [x.arg for x in list(a.posonlyargs) + list(a.args)]
+                        vname = ps[1] if len(ps) > 1 and ps[0] in ("cls", "self") else (ps[0] if ps else "v")
+                        st, detail = classify(pm, dt, rows, Info(vname, shape, kind, region, exp, etypes))
+                        rank = {"covered": 0, "wrong-exception": 1, "mixed": 2, "accepts": 3, "untested": 4, "unknown": 2}
+                        if best is None or rank[st] < rank[best[0]]:
+                            best = (st, f"{fi.short}: {detail}", fi)
+                        if st == "covered":
+                            break
+                    if best is None or best[0] in ("accepts", "untested"):
+                        # checks that run after construction (they see the value after defaults were filled in)
+                        for fi in construction_hooks(pm, owner):
+                            dt, rows, err = ev.rows(fi)
+                            if rows is None:
+                                continue
+                            st, detail = classify(pm, dt, rows, Info(f"self.{field}", shape, kind, region, exp, etypes))
+                            if st == "covered":
+                                best = (st, f"{fi.short} (after construction): {detail}", fi)
+                                break
+                            if st == "mixed" and (best is None or best[0] in ("accepts", "untested")) and any(f"self.{field}" in k for r in rows for k in r["val"]):
+                                best = ("accepts", f"{fi.short} (runs after the defaults were filled in): {detail}", fi)
+                    results[(shape, region)] = best or ("accepts", "no validator reaches the field", None)
+            where = next((b[2].where() for b in results.values() if b[2] is not None), pm.cls(owner).path + f":{decl.lineno}")
+            covered = [k for k, b in results.items() if b[0] == "covered"]
+            ctx.instance("R19.1", where, f"{owner}.{field} [{kind}{'' if not isinstance(expected, (str, int)) else ' ' + str(expected)}] validators {list(names) or 'none'}: " +
+                         "; ".join(f"{s}/{r}: {b[0]}" for (s, r), b in results.items())[:200])
+            for (shape, region), (st, detail, fi) in results.items():
+                w = fi.where() if fi is not None else where
+                tag = f"{kind} {region} ({shape})"
+                if st == "covered":
+                    continue
+                if st in ("mixed", "unknown"):
+                    ctx.gap("R19.1", f"{owner}.{field}: rejection of {tag} could not be decided ({detail[:160]})")
+                elif st == "wrong-exception":
+                    ctx.violation("R19.2", f"{owner}.{field}", f"{tag}: wrong exception", w, f"{owner}.{field}: a value that is {region} ({shape} position) is rejected with the wrong exception type: {detail}")
+                else:
+                    rule = "R19.1"
+                    if covered and any(r2 == region for (_s2, r2) in covered):
+                        rule = "R19.4"              # rejected in another position only
+                    elif kind == "positive" and region == "zero" and any(r2 == "negative" for (_s2, r2) in covered):
+                        rule = "R19.5"
+                    ctx.violation(rule, f"{owner}.{field}", tag, w,
+                                  f"{owner}.{field}: a value that is {region} in {shape} position is not rejected with ValueError at construction ({detail[:200]})"
+                                  + (f"; legal set {sorted(map(str, exp))[:8]}" if isinstance(exp, (set, frozenset)) else ""))
+    ctx.floor("R19.1", 37)
+
+
+# ---------------------------------------------------------------------------------------------- API used by C01
+def _kind_ok(pm, fi: FuncInfo, kind: str, expected) -> tuple[bool, str]:
+    """does the validator reject every region of the constraint kind (for some admitted shape)?  (symbolic)"""
+    dt = SDT(pm)
+    try:
+        rows = dt.table_rows(fi.node.body, sdt_env(fi), fi, limit=20000)
+    except Unsupported:
+        return False, ""
+    a = fi.node.args
+    ps = [x.arg for x in list(a.posonlyargs) + list(a.args)]
+    vname = ps[1] if len(ps) > 1 and ps[0] in ("cls", "self") else (ps[0] if ps else "v")
+    exp = expected_set(pm, fi.cls or "", kind, expected) if kind in ("member", "letters") else expected
+    for shape in (["whole"] if kind == "length" else ["flat", "nested", "scalar"]):
+        sts = [classify(pm, dt, rows, Info(vname, shape, kind, region, exp, {"int", "float"} if kind == "positive" else {"str"}))[0] for region in REGIONS[kind]]
+        if all(s == "covered" for s in sts):
+            return True, f"{shape}: all of {REGIONS[kind]} rejected"
     return False, ""
 
 
 def _weak_positive(fi: FuncInfo) -> str | None:
-    """a positivity guard that excludes the boundary (`< 0`)"""
-    for r, tests in guarded_raises(fi):
-        for test, in_body in tests:
-            for c in ast.walk(test):
-                if isinstance(c, ast.Compare) and len(c.ops) == 1 and isinstance(c.ops[0], ast.Lt) \
-                        and isinstance(c.comparators[0], ast.Constant) and c.comparators[0].value == 0:
-                    return unparse(c)
+    """a positivity guard that excludes the boundary: negatives are rejected, zero is not"""
+    for n in walk_no_nested(fi.node):
+        if isinstance(n, ast.Compare) and len(n.ops) == 1 and isinstance(n.ops[0], ast.Lt) and isinstance(n.comparators[0], ast.Constant) and n.comparators[0].value == 0:
+            return unparse(n)
     return None
-
-
-def _depth_ok(pm, cls: str, field: str, fi: FuncInfo) -> tuple[bool, str]:
-    """R19.4: fields admitting flat and nested lists need a raise reachable for both shapes"""
-    ann = (pm.field_ann(cls, field) or "").replace(" ", "")
-    nested = "list[list[" in ann
-    flat = any(p.startswith("list[") and not p.startswith("list[list[") for p in ann.split("|"))
-    raises = [(r, tests) for r, tests in guarded_raises(fi) if exc_name(r) in OK_EXC]
-
-    def loop_depth(r):
-        d = 0
-        p = getattr(r, "_parent", None)
-        while p is not None and p is not fi.node:
-            if isinstance(p, ast.For):
-                d += 1
-            p = getattr(p, "_parent", None)
-        return d
-
-    def gen_depth(r_tests):
-        best = 0
-        for test, _ in r_tests:
-            for c in ast.walk(test):
-                if isinstance(c, ast.GeneratorExp):
-                    best = max(best, len(c.generators))
-        return best
-
-    depths = {max(loop_depth(r), gen_depth(t)) for r, t in raises}
-    # string-valued fields iterate one more level (characters of a format string)
-    extra = 1 if field == "text_format" else 0
-    need = set()
-    if nested:
-        need.add(2 + extra)
-    if flat:
-        need.add(1 + extra)
-    if not nested and not flat:
-        return True, "scalar"
-    # a `before` normaliser (_to_nested_list) makes every value nested in table classes
-    missing = {d for d in need if d not in depths}
-    return (not missing), f"annotation admits depths {sorted(need)}, raises at loop depths {sorted(depths)}"
-
-
-def r19_6(ctx: Ctx, rule: str = "R19.6") -> None:
-    """validator legal set must be contained in the emitter's table (same keys)"""
-    pm = ctx.pm
-    # emitter side: TABLE[self.<field>] inside model classes
-    emit: dict[tuple[str, str], tuple[str, FuncInfo, ast.AST]] = {}
-    for model in ("TextContent", "Cell", "Row", "Border"):
-        ci = pm.cls(model)
-        for fi in ci.methods.values():
-            for n in walk_no_nested(fi.node):
-                if isinstance(n, ast.Subscript) and isinstance(n.slice, ast.Attribute) and \
-                        isinstance(n.slice.value, ast.Name) and n.slice.value.id == "self":
-                    emit[(model, n.slice.attr)] = (unparse(n.value), fi, n)
-    # binding: model field <- attribute (from constructor call sites)
-    bind: dict[str, set[tuple[str, str]]] = {}
-    for fi in pm.iter_funcs():
-        for c in walk_no_nested(fi.node):
-            if isinstance(c, ast.Call) and dotted(c.func).split(".")[-1] in ("TextContent", "Cell", "Row", "Border"):
-                model = dotted(c.func).split(".")[-1]
-                for k in c.keywords:
-                    v = k.value
-                    if isinstance(v, ast.Call) and dotted(v.func).split(".")[-1] in ("get_broadcast_value", "get_attr") \
-                            and v.args and isinstance(v.args[0], ast.Constant):
-                        bind.setdefault(v.args[0].value, set()).add((model, k.arg))
-                    elif isinstance(v, ast.Name):
-                        # local assigned from get_attr("x", …)
-                        rv = _resolve_local(fi, v)
-                        if isinstance(rv, ast.Call) and dotted(rv.func).split(".")[-1] in ("get_broadcast_value", "get_attr") \
-                                and rv.args and isinstance(rv.args[0], ast.Constant):
-                            bind.setdefault(rv.args[0].value, set()).add((model, k.arg))
-    # Border(style=…) is fed from border_* attributes
-    n = 0
-    for attr, targets in sorted(bind.items()):
-        for (model, fld) in sorted(targets):
-            if (model, fld) not in emit:
-                continue
-            etab_txt, efi, enode = emit[(model, fld)]
-            etab = const_expr(pm, efi.module, enode.value)
-            cls = "TableAttributes" if pm.field_decl("TableAttributes", attr) is not None else "TextAttributes"
-            for vfi in validators_for(pm, cls, attr):
-                for r, tests in guarded_raises(vfi):
-                    for test, in_body in tests:
-                        for c in ast.walk(test):
-                            if isinstance(c, ast.Compare) and len(c.ops) == 1 and isinstance(c.ops[0], ast.NotIn):
-                                vtab = const_expr(pm, vfi.module, _resolve_local(vfi, c.comparators[0]))
-                                if vtab is NOC or etab is NOC:
-                                    continue
-                                n += 1
-                                extra = sorted(set(vtab) - set(etab))
-                                ctx.instance(rule, vfi.where(c), f"{attr}: validator table {unparse(c.comparators[0])} vs emitter {model}.{fld} -> {etab_txt}; accepted-but-unencodable: {extra}")
-                                if extra:
-                                    ctx.violation(rule, f"{cls}.{attr}", f"{unparse(c.comparators[0])} vs {etab_txt}: {extra}", vfi.where(c),
-                                                  f"{attr} is validated against {unparse(c.comparators[0])} but emitted through {etab_txt} "
-                                                  f"({model}.{fld}); values {extra} are accepted at construction and raise at encode time")
-    ctx.floor(rule, 5)
-
-
-
-
-# ================================================================================================
-# observation by interpretation: a small model of pydantic's BaseModel on top of the model interpreter
-# ================================================================================================
-from .c17 import (Bound, ExtRef, Interp, Obj, PyExc, Unknown, Unsupported, _Model,  # noqa: E402
-                  is_artefact, interp_pm, cover, METHOD, run_valuations, FS)
-import copy as _copy  # noqa: E402
-
-
-class DataFrameModel(_Model):
-    """model of a data frame: only its column names matter here"""
-
-    def __init__(self, columns, nrow=3):
-        self.columns = list(columns)
-        self.shape = (nrow, len(self.columns))
-        self.width, self.height = len(self.columns), nrow
-        self.schema = {c: "String" for c in self.columns}
-
-    def __len__(self):
-        return self.height
-
-    def __repr__(self):
-        return f"<Frame {self.columns}>"
-
-    def __deepcopy__(self, memo):
-        return self
-
-
-class PydInterp(Interp):
-    """Interp + BaseModel.__init__: model validators (before), per field: before-validators, after/plain validators (type
-    coercion is not modelled: samples already have an admitted type), defaults for absent fields, model validators (after).
-    ValueError / AssertionError raised by a validator become ValidationError (a ValueError), other exceptions propagate."""
-
-    def __init__(self, pm, externals=None, lenient=True):
-        Interp.__init__(self, pm, externals, lenient)
-        self.unmodelled_types = set()         # (class, field) whose declared type uses constructs ann_check cannot decide
-
-    def make_model(self, cv, args, kwargs):
-        if args:
-            self.throw("TypeError", "BaseModel.__init__() takes 1 positional argument")
-        o = Obj(cv, {})
-        init = self.pm.find_method(cv.ci.name, "__init__")
-        if init is not None:
-            self.call_func(self.func_val(init), [o], kwargs)
-        else:
-            self.pydantic_init(o, kwargs)
-        return o
-
-    def super_fallback(self, obj, name, rest):
-        if name == "__init__" and isinstance(obj, Obj) and "BaseModel" in obj.cls.mro_names():
-            return lambda *a, **k: self.pydantic_init(obj, k)
-        if name in ("model_post_init",):
-            return lambda *a, **k: None
-        return Interp.super_fallback(self, obj, name, rest)
-
-    def isinstance_ext(self, v, t):
-        if isinstance(v, DataFrameModel):
-            return isinstance(t, ExtRef) and t.dotted.split(".")[-1] in ("DataFrame", "LazyFrame")
-        return Interp.isinstance_ext(self, v, t)
-
-    def call_ext(self, f, args, kwargs):
-        if f.dotted.split(".")[-1] in ("Field", "PrivateAttr", "ConfigDict"):
-            return Unknown(f.dotted)
-        return Interp.call_ext(self, f, args, kwargs)
-
-    def _validators(self, cname):
-        meths = {}
-        for c in reversed(self.pm.mro(cname)):
-            ci = self.pm.classes.get(c)
-            if ci:
-                for nm, fi in ci.methods.items():
-                    meths.pop(nm, None)
-                    meths[nm] = fi
-        fv, mb, ma = [], [], []
-        for fi in meths.values():
-            vf = fi.validator_fields()
-            if vf:
-                fv.append((fi, vf[0], vf[1]))
-            mm = fi.model_validator_mode()
-            if mm == "before":
-                mb.append(fi)
-            elif mm == "after":
-                ma.append(fi)
-            elif mm is not None:
-                raise Unsupported(f"model_validator mode {mm}")
-        return fv, mb, ma
-
-    def _call_validator(self, fi, cv, v, info):
-        n = len(fi.node.args.posonlyargs) + len(fi.node.args.args)
-        f = Bound(self.func_val(fi), cv)
-        return self.call(f, [v, info][:max(n - 1, 1)], {})
-
-    # ---- declarative constraints (annotation / Field arguments): True = admitted, False = rejected, None = not modelled
-    _PLAIN = {"int", "float", "str", "bool", "bytes", "Any", "object", "Path", "Number", "complex"}
-    _SEQ = {"list", "List", "Sequence", "MutableSequence", "Iterable", "Collection", "tuple", "Tuple", "set", "Set", "frozenset", "FrozenSet"}
-    _NUMERIC = {"PositiveInt": lambda v: v > 0, "PositiveFloat": lambda v: v > 0, "NonNegativeInt": lambda v: v >= 0,
-                "NonNegativeFloat": lambda v: v >= 0, "NegativeInt": lambda v: v < 0, "NegativeFloat": lambda v: v < 0,
-                "NonPositiveInt": lambda v: v <= 0, "NonPositiveFloat": lambda v: v <= 0}
-    _BOUNDS = {"gt": lambda v, b: v > b, "ge": lambda v, b: v >= b, "lt": lambda v, b: v < b, "le": lambda v, b: v <= b,
-               "min_length": lambda v, b: len(v) >= b, "max_length": lambda v, b: len(v) <= b,
-               "multiple_of": lambda v, b: v % b == 0}
-    _FIELD_NEUTRAL = {"default", "default_factory", "description", "title", "examples", "alias", "repr", "exclude", "frozen",
-                      "validate_default", "json_schema_extra", "deprecated", "kw_only", "init", "validation_alias", "serialization_alias"}
-
-    def _field_bounds(self, call, v, module):
-        """constraints given as Field(...) keyword arguments"""
-        res = True
-        for k in call.keywords:
-            if k.arg in self._BOUNDS:
-                b = self.ev(k.value, Frame_mod(module))
-                try:
-                    if isinstance(v, bool) or v is None:
-                        continue
-                    if not self._BOUNDS[k.arg](v, b):
-                        return False
-                except TypeError:
-                    continue                      # constraint of another alternative of the union
-            elif k.arg not in self._FIELD_NEUTRAL:
-                res = None
-        return res
-
-    def ann_check(self, ann, v, module, depth=0):
-        def tri_any(rs):
-            rs = list(rs)
-            return True if any(r is True for r in rs) else (None if any(r is None for r in rs) else False)
-
-        def tri_all(rs):
-            rs = list(rs)
-            return False if any(r is False for r in rs) else (None if any(r is None for r in rs) else True)
-        if depth > 8:
-            return None
-        if isinstance(ann, ast.Constant):
-            if ann.value is None:
-                return v is None
-            if isinstance(ann.value, str):
-                try:
-                    return self.ann_check(ast.parse(ann.value, mode="eval").body, v, module, depth + 1)
-                except SyntaxError:
-                    return None
-            return None
-        if isinstance(ann, ast.BinOp) and isinstance(ann.op, ast.BitOr):
-            return tri_any([self.ann_check(ann.left, v, module, depth + 1), self.ann_check(ann.right, v, module, depth + 1)])
-        if isinstance(ann, ast.Subscript):
-            base = dotted(ann.value).split(".")[-1]
-            args = list(ann.slice.elts) if isinstance(ann.slice, ast.Tuple) else [ann.slice]
-            if base == "Optional":
-                return tri_any([v is None, self.ann_check(args[0], v, module, depth + 1)])
-            if base == "Union":
-                return tri_any(self.ann_check(a, v, module, depth + 1) for a in args)
-            if base == "Literal":
-                vals = [self.ev(a, Frame_mod(module)) for a in args]
-                return any(type(x) is type(v) and x == v for x in vals)
-            if base in self._SEQ:
-                if isinstance(v, (str, bytes)) or not isinstance(v, (list, tuple, set, frozenset)):
-                    return False
-                if base in ("tuple", "Tuple") and not (len(args) == 2 and isinstance(args[1], ast.Constant) and args[1].value is Ellipsis):
-                    if len(args) != len(v):
-                        return False
-                    return tri_all(self.ann_check(a, x, module, depth + 1) for a, x in zip(args, v))
-                return tri_all(self.ann_check(args[0], x, module, depth + 1) for x in v)
-            if base == "Annotated":
-                r = self.ann_check(args[0], v, module, depth + 1)
-                for m in args[1:]:
-                    if isinstance(m, ast.Call) and dotted(m.func).split(".")[-1] == "Field":
-                        r = tri_all([r, self._field_bounds(m, v, module)])
-                    elif isinstance(m, ast.Constant):
-                        continue
-                    elif isinstance(m, ast.Call) and dotted(m.func).split(".")[-1] in ("Gt", "Ge", "Lt", "Le", "MinLen", "MaxLen") and m.args:
-                        key = {"Gt": "gt", "Ge": "ge", "Lt": "lt", "Le": "le", "MinLen": "min_length", "MaxLen": "max_length"}[dotted(m.func).split(".")[-1]]
-                        try:
-                            if v is not None and not self._BOUNDS[key](v, self.ev(m.args[0], Frame_mod(module))):
-                                return False
-                        except TypeError:
-                            pass
-                    else:
-                        r = tri_all([r, None])
-                return r
-            if base in ("dict", "Dict", "Mapping", "MutableMapping"):
-                return isinstance(v, dict)
-            if base in ("type", "Type", "ClassVar", "Callable"):
-                return True
-            return None
-        if isinstance(ann, (ast.Name, ast.Attribute)):
-            nm = dotted(ann).split(".")[-1]
-            if nm == "None":
-                return v is None
-            if nm in self._NUMERIC:
-                return isinstance(v, (int, float)) and not isinstance(v, bool) and self._NUMERIC[nm](v)
-            if nm in self._PLAIN or nm in self._SEQ or nm in ("dict", "Dict", "Mapping", "DataFrame", "LazyFrame"):
-                return True
-            if isinstance(ann, ast.Name):
-                r = self.pm.resolve(module, nm)
-                if r is not None and r[0] == "value":            # a type alias defined in the repository
-                    return self.ann_check(r[1][1], v, r[1][0].name, depth + 1)
-                if r is not None and r[0] == "class":
-                    names = self.class_val(r[1]).mro_names()
-                    if "Enum" in names:
-                        members = [self.ev(x, Frame_mod(r[1].module)) for x in r[1].class_assigns.values()]
-                        return v in members
-                    return True
-                if r is not None and r[0] == "ext" and r[1].split(".")[0] in ("typing", "collections", "pathlib", "polars", "narwhals", "pandas", "numpy", "builtins", "os"):
-                    return True
-            return None
-        return None
-
-    def type_check(self, cname, name, decl, v):
-        """pydantic's own validation of the declared type, as far as it constrains *values*"""
-        ci = next((self.pm.classes[c] for c in self.pm.mro(cname) if c in self.pm.classes and name in self.pm.classes[c].fields), None)
-        module = ci.module if ci is not None else self.pm.cls(cname).module
-        r = self.ann_check(decl.annotation, v, module)
-        if r is not False and isinstance(decl.value, ast.Call) and dotted(decl.value.func).split(".")[-1] == "Field":
-            b = self._field_bounds(decl.value, v, module)
-            r = False if b is False else (None if (b is None or r is None) else True)
-        return r
-
-    def _as_validation_error(self, e, what):
-        names = self.exc_names(e.val)
-        if "ValueError" in names or "AssertionError" in names:
-            ve = self.make_exc("ValidationError", f"1 validation error for {what}: {self.fmt(e.val)}")
-            ve.attrs["__origin__"] = "validator"
-            ve.attrs["__cause__"] = e.val
-            return PyExc(ve)
-        return e
-
-    def pydantic_init(self, o, data):
-        cv = o.cls
-        cname = cv.ci.name
-        fv, mb, ma = self._validators(cname)
-        data = dict(data)
-        for fi in mb:
-            try:
-                data = self.call(Bound(self.func_val(fi), cv), [data], {})
-            except PyExc as e:
-                raise self._as_validation_error(e, cname)
-            if not isinstance(data, dict):
-                raise Unsupported(f"model validator {fi.short} returned {data!r}")
-        validated = {}
-        for name, decl in self.pm.all_fields(cname).items():
-            if name.startswith("_") or "ClassVar" in unparse(decl.annotation) or name == "model_config":
-                continue
-            if name in data:
-                v = data[name]
-                info = Obj(None, {"field_name": name, "data": dict(validated), "config": None, "context": None, "mode": "python"})
-                mine = [(fi, mode) for fi, flds, mode in fv if name in flds or "*" in flds]
-                try:
-                    for fi, mode in reversed(mine):
-                        if mode == "before":
-                            v = self._call_validator(fi, cv, v, info)
-                    tc = self.type_check(cname, name, decl, v)
-                    if tc is False:
-                        self.throw("ValueError", f"value {v!r} is not admitted by the declared type of {name}")
-                    if tc is None:
-                        self.unmodelled_types.add((cname, name))
-                    for fi, mode in mine:
-                        if mode in ("after", "plain"):
-                            v = self._call_validator(fi, cv, v, info)
-                        elif mode != "before":
-                            raise Unsupported(f"field_validator mode {mode}")
-                except PyExc as e:
-                    raise self._as_validation_error(e, f"{cname}.{name}")
-            else:
-                d = self.field_default(decl.value, Frame_module(cv)) if decl.value is not None else NotImplemented
-                if d is NotImplemented:
-                    ve = self.make_exc("ValidationError", f"1 validation error for {cname}: {name} Field required")
-                    ve.attrs["__origin__"] = "validator"
-                    raise PyExc(ve)
-                v = _copy.deepcopy(d)
-            validated[name] = v
-        o.attrs.update(validated)
-        o.attrs.setdefault("__fields_set__", set()).update(k for k in data if k in validated)
-        for fi in ma:
-            try:
-                self.call(Bound(self.func_val(fi), o), [], {})
-            except PyExc as e:
-                raise self._as_validation_error(e, cname)
-        return None
-
-    def model_attr(self, o, name):
-        if name == "model_fields_set":
-            return set(o.attrs.get("__fields_set__", ()))
-        if name == "model_copy":
-            def model_copy(update=None, deep=False):
-                n = Obj(o.cls, _copy.deepcopy(o.attrs) if deep else dict(o.attrs))
-                n.attrs.update(update or {})
-                return n
-            return model_copy
-        if name == "model_dump":
-            return lambda **k: {k2: v for k2, v in o.attrs.items() if not k2.startswith("_")}
-        return NotImplemented
-
-    def model_class_attr(self, cv, name):
-        if name == "model_fields" and "BaseModel" in cv.mro_names():
-            out = {}
-            for nm, decl in self.pm.all_fields(cv.ci.name).items():
-                if nm.startswith("_"):
-                    continue
-                d = self.field_default(decl.value, Frame_module(cv)) if decl.value is not None else None
-                out[nm] = Obj(None, {"default": None if d is NotImplemented else d, "annotation": Unknown("annotation"), "is_required": lambda d=d: d is NotImplemented})
-            return out
-        return NotImplemented
-
-
-def Frame_mod(module):
-    from .c17 import Frame
-    return Frame(module)
-
-
-def Frame_module(cv):
-    from .c17 import Frame
-    return Frame(cv.ci.module)
-
-
-def _shared_interp(pm):
-    """one interpreter per program model for constructor runs: module-level tables (colour table, code tables) are evaluated once;
-    constructors do not mutate module state"""
-    it = getattr(pm, "_c19_interp", None)
-    if it is None:
-        it = pm._c19_interp = PydInterp(pm)
-    return it
-
-
-def _construct(pm, cls, kwargs):
-    """construct cls(**kwargs) under every valuation of unknown conditions -> [outcome]"""
-    it = _shared_interp(pm)
-
-    def make():
-        cv = it.class_val(pm.cls(cls))
-        return it, (lambda: it.call(cv, [], _copy.deepcopy(kwargs))), it
-    out = [o for _, o, _ in run_valuations(make)]
-    _STATS["constructions"] += 1
-    _STATS["runs"] += len(out)
-    _STATS["forks"] += len(out) - 1
-    _STATS["classes"].add(cls)
-    return out
-
-
-_STATS = {"constructions": 0, "runs": 0, "forks": 0, "classes": set(), "samples": {}}
-
-
-def _is_value_error(o) -> bool:
-    return o[0] == "raise" and "ValueError" in (o[1].cls.mro_names() if o[1].cls is not None else [])
-
-
-def _table_values(it, pm, name):
-    """keys of the module-level table NAME (wherever it is defined)"""
-    for mi in pm.modules.values():
-        if name in mi.assigns:
-            v = it.global_name(mi.name, name)
-            if isinstance(v, dict):
-                return list(v)
-            if isinstance(v, (list, tuple, set, frozenset)):
-                return list(v)
-    return None
-
-
-def _samples(it, pm, kind, expected):
-    """(valid values, invalid values) for a constraint kind"""
-    if kind in ("member", "letters"):
-        if expected == "font-types":
-            try:
-                tab = it.call(it.class_attr(it.class_val(pm.cls("Utils")), "_font_type"), [], {})["type"]
-                valid = list(tab)
-            except (Unsupported, PyExc, KeyError, TypeError, AnalysisError):
-                valid = list(range(1, 11))
-            return valid[:3], [x for x in (0, max(valid) + 1, 99, -1) if x not in valid]
-        if isinstance(expected, str):
-            names = [expected] if not expected.startswith("*") else ["ROW_" + expected[1:]]
-            valid = None
-            for nm in names:
-                valid = _table_values(it, pm, nm)
-                if valid is not None:
-                    break
-            if valid is None:
-                raise Unsupported(f"table {expected} not found")
-        else:
-            valid = list(expected)
-        if kind == "letters":
-            letters = [x for x in valid if isinstance(x, str) and len(x) == 1]
-            return ([letters[0], letters[0] + letters[-1]] if letters else [""]), ["~", (letters[0] if letters else "") + "~"]
-        nonempty = [x for x in valid if isinstance(x, str) and x]
-        invalid = ["zz-invalid"]
-        if len(nonempty) >= 2 and nonempty[0] + nonempty[1] not in valid:
-            invalid.append(nonempty[0] + nonempty[1])
-        return (nonempty or valid)[:2], invalid
-    if kind == "color":
-        return ["red", "blue"], ["not-a-colour", "redd~"]
-    if kind == "positive":
-        return [1, 2], [-1, 0]
-    if kind == "length":
-        return [[1.0] * expected], [[1.0] * (expected - 1), [1.0] * (expected + 1), []]
-    raise Unsupported("constraint kind " + kind)
-
-
-def _positions(kind, good, bad):
-    """(position label, value) for an invalid element `bad` placed among valid elements `good`"""
-    if kind == "length":
-        return [("whole", bad)]
-    return [("scalar", bad), ("flat", [good, bad]), ("flat", [bad]), ("nested", [[good, good], [good, bad]]), ("nested", [[bad]])]
-
-
-def _valid_in(kind, good):
-    if kind == "length":
-        return {"whole": good}
-    return {"scalar": good, "flat": [good, good], "nested": [[good, good], [good, good]]}
-
-
-def r19_1(ctx: Ctx) -> None:
-    pm = interp_pm(ctx.pm)
-    it0 = PydInterp(pm)
-    concrete = {}
-    for cls, field, kind, expected in MATRIX:
-        if pm.field_decl(cls, field) is None:
-            raise AnalysisError(f"matrix row {cls}.{field}: field no longer declared")
-        where = pm.cls(cls).path + f":{pm.field_decl(cls, field).lineno}"
-        try:
-            valid, invalid = _samples(it0, pm, kind, expected)
-        except Unsupported as e:
-            ctx.gap("R19.1", f"{cls}.{field}: no sample values ({e})")
-            continue
-        good = valid[0]
-        _STATS["samples"][f"{kind}:{expected}"] = {"valid": [repr(x) for x in valid], "invalid": [repr(x) for x in invalid]}
-        if cls not in concrete:
-            subs = [c for c in pm.subclasses(cls) if c != cls and pm.is_pydantic(c) and not pm.subclasses(c)[1:]]
-            concrete[cls] = subs
-        classes = [cls] + [c for c in concrete[cls] if c != cls]
-        n_checked = 0
-        accepted = {}      # (class, position) -> [invalid values accepted]
-        rejected = set()
-        wrong_exc = {}
-        for ci_, c in enumerate(classes):
-            # which positions does this class support? (a valid value in that position constructs)
-            try:
-                supported = {}
-                for pos, val in _valid_in(kind, good).items():
-                    outs = _construct(pm, c, {field: val})
-                    supported[pos] = all(o[0] == "return" for o in outs)
-                for v2 in valid[1:]:
-                    pos0 = next((p for p, ok in supported.items() if ok), None)
-                    if pos0 is not None and not all(o[0] == "return" for o in _construct(pm, c, {field: _valid_in(kind, v2)[pos0]})):
-                        ctx.gap("R19.1", f"{c}.{field}: the valid value {v2!r} is rejected in the model (sample set or pydantic model out of date)")
-                if not any(supported.values()):
-                    if ci_ == 0:
-                        outs = _construct(pm, c, {field: list(_valid_in(kind, good).values())[0]})
-                        ctx.gap("R19.1", f"{c}({field}=<valid value {good!r}>) cannot be constructed in the model: {outs[0][1]!r}")
-                    continue
-                bads = invalid if ci_ == 0 else invalid[-1:]
-                for bad in bads:
-                    seen_pos = set()
-                    for pos, val in _positions(kind, good, bad):
-                        if not supported.get(pos) or (ci_ > 0 and pos in seen_pos):
-                            continue
-                        seen_pos.add(pos)
-                        for o in _construct(pm, c, {field: val}):
-                            n_checked += 1
-                            if o[0] == "return":
-                                accepted.setdefault((c, pos), []).append(bad)
-                            elif _is_value_error(o):
-                                rejected.add((c, pos, repr(bad)))
-                            elif is_artefact(o[1]):
-                                ctx.gap("R19.1", f"{c}({field}={val!r}): interpretation ended with {o[1]!r}")
-                            else:
-                                wrong_exc[(c, pos)] = o[1]
-            except Unsupported as e:
-                ctx.gap("R19.1", f"{c}({field}=...): construction is outside the interpreted subset: {e}")
-                continue
-        ctx.instance("R19.1", where, f"{cls}.{field}: {kind} {expected if expected else ''}: {n_checked} constructions with invalid values "
-                     f"({', '.join(map(repr, invalid))}) over {len(classes)} class(es); accepted: {sorted({f'{c}/{p}' for c, p in accepted}) or 'none'}")
-        for (c, pos), exc in sorted(wrong_exc.items()):
-            en = exc.cls.mro_names()[0] if exc.cls is not None else "?"
-            ctx.violation("R19.2", f"{cls}.{field}", f"raises {en}", where,
-                          f"{c}({field}=<invalid value in {pos} position>) raises {exc!r}; invalid configuration must raise ValueError")
-        if not accepted:
-            continue
-        unm = sorted(f"{c}.{f}" for c, f in _shared_interp(pm).unmodelled_types if f == field and any(cc == c for (cc, _p) in accepted))
-        if unm:
-            ctx.gap("R19.1", f"{cls}.{field}: invalid sample values are accepted in the model, but the declared type of {unm[0]} uses constructs "
-                             "whose validation by pydantic is not modelled")
-            continue
-        by_pos = {}
-        for (c, pos), vals in accepted.items():
-            by_pos.setdefault(pos, set()).update(map(repr, vals))
-        all_pos = {p for (c, p, _) in rejected} | set(by_pos)
-        # classify: boundary only / some positions only / not validated at all
-        vals = set().union(*by_pos.values())
-        ex_c, ex_pos = sorted(accepted)[0]
-        if kind == "positive" and vals == {"0"}:
-            ctx.violation("R19.5", f"{cls}.{field}", "positive: 0 accepted", where,
-                          f"{ex_c}({field}=0) is accepted while negative values are rejected: the positivity check excludes the boundary 0")
-        elif any(p not in by_pos for p in all_pos) and any(True for (c, p, _) in rejected):
-            ctx.violation("R19.4", f"{cls}.{field}", f"{kind} not checked in {sorted(by_pos)} position", where,
-                          f"{cls}.{field}: invalid values {sorted(vals)} are rejected in {sorted(all_pos - set(by_pos)) or 'some classes'} position but accepted in "
-                          f"{sorted(by_pos)} position (e.g. by {ex_c})")
-        else:
-            ctx.violation("R19.1", f"{cls}.{field}", f"{kind} missing", where,
-                          f"{cls}.{field}: construction accepts the invalid value(s) {sorted(vals)} (e.g. {ex_c}, {ex_pos} position); "
-                          f"no ValueError for the '{kind}' constraint" + (f" against {expected}" if expected else ""))
-    ctx.floor("R19.1", 37)
-
-
-def _body_kwargs(**k):
-    return k
-
-
-def r19_7(ctx: Ctx) -> None:
-    """document-level cross-field checks, observed on interpreted construction"""
-    pm = interp_pm(ctx.pm)
-    cols_a, cols_b = ["alpha", "beta", "gamma"], ["delta", "epsilon", "alpha"]
-    doc_fi = pm.func("RTFDocument.validate_column_names")
-    if doc_fi.model_validator_mode() != "after":
-        ctx.violation("R19.7", doc_fi.short, "not a model_validator(after)", doc_fi.where(), "validate_column_names is no longer run by pydantic after construction")
-
-    def build(it, spec):
-        """spec: ('doc', {df: cols|[cols..]|None, body: dict|[dict..], figure: bool, extra...})"""
-        RTFBody = it.class_val(pm.cls("RTFBody"))
-        kw = {}
-        df = spec.get("df")
-        if df is not None:
-            kw["df"] = [DataFrameModel(c) for c in df] if df and isinstance(df[0], list) else DataFrameModel(df)
-        body = spec.get("body")
-        if body is not None:
-            kw["rtf_body"] = [it.call(RTFBody, [], dict(b)) for b in body] if isinstance(body, list) else it.call(RTFBody, [], dict(body))
-        if spec.get("figure"):
-            kw["rtf_figure"] = it.call(it.class_val(pm.cls("RTFFigure")), [], {})
-        return kw
-
-    def construct(spec):
-        def make():
-            it = PydInterp(pm)
-            fs = FS(it, {"/work/fig.png": "PNG"})
-            it.externals.update(fs.externals())
-            return it, (lambda: it.call(it.class_val(pm.cls("RTFDocument")), [], build(it, spec))), it
-        return [o for _, o, _ in run_valuations(make)]
-
-    ok_body = {"group_by": ["alpha"], "page_by": ["beta"], "subline_by": ["gamma"]}
-    # ---- the model must be able to construct valid documents, otherwise nothing can be concluded
-    usable = True
-    for label, spec in (("single section", {"df": cols_a, "body": {}}), ("single section with grouping", {"df": cols_a, "body": ok_body}),
-                        ("two sections", {"df": [cols_a, cols_b], "body": [ok_body, {"page_by": ["delta"]}]})):
-        try:
-            outs = construct(spec)
-        except Unsupported as e:
-            ctx.gap("R19.7", f"RTFDocument construction ({label}) is outside the interpreted subset: {e}")
-            usable = False
-            continue
-        for o in outs:
-            ctx.instance("R19.7", doc_fi.where(), f"valid document ({label}): {o[0]} {o[1] if o[0] == 'raise' else ''}")
-            if o[0] == "raise":
-                ctx.gap("R19.7", f"a valid document ({label}) cannot be constructed in the model: {o[1]!r}")
-                usable = False
-    if usable:
-        cases = []
-        for grp in ("group_by", "page_by", "subline_by"):
-            for missing in ("alp", "nonexistent", "beta, gamma"):
-                cases.append((f"{grp} column {missing!r} missing from the data", grp, {"df": cols_a, "body": {grp: [missing]}}))
-            cases.append((f"{grp} column missing, listed after a valid one", grp, {"df": cols_a, "body": {grp: ["alpha", "zzz"]}}))
-            others = {g: [c] for g, c in zip(("group_by", "page_by", "subline_by"), cols_a) if g != grp}
-            cases.append((f"{grp} column missing while the other grouping options are valid", grp, {"df": cols_a, "body": {**others, grp: ["zzz"]}}))
-            cases.append((f"{grp} column of section 2 present only in section 1", grp,
-                          {"df": [cols_a, cols_b], "body": [{}, {grp: ["beta"]}]}))
-        cases += [("neither df nor figure", "df-or-figure", {}), ("df together with a figure", "df-and-figure", {"df": cols_a, "body": {}, "figure": True}),
-                  ("df list with a single body", "body-list", {"df": [cols_a, cols_b], "body": {}}),
-                  ("df list and body list of different lengths", "length", {"df": [cols_a, cols_b], "body": [{}, {}, {}]}),
-                  ("df list longer than the body list", "length", {"df": [cols_a, cols_b, cols_a], "body": [{}, {}]})]
-        for label, key, spec in cases:
-            try:
-                outs = construct(spec)
-            except Unsupported as e:
-                ctx.gap("R19.7", f"RTFDocument construction ({label}) is outside the interpreted subset: {e}")
-                continue
-            for o in outs:
-                ctx.instance("R19.7", doc_fi.where(), f"{label}: {o[0]} {(o[1].cls.mro_names()[0] if o[1].cls else '?') if o[0] == 'raise' else ''}")
-                if o[0] == "return":
-                    ctx.violation("R19.7", "RTFDocument", f"{key} accepted", doc_fi.where(),
-                                  f"RTFDocument is constructed although {label}; no ValueError is raised")
-                elif not _is_value_error(o):
-                    if is_artefact(o[1]):
-                        ctx.gap("R19.7", f"{label}: interpretation ended with {o[1]!r}")
-                    else:
-                        ctx.violation("R19.2", "RTFDocument", f"{key} raises {o[1].cls.mro_names()[0] if o[1].cls else '?'}", doc_fi.where(),
-                                      f"{label}: construction raises {o[1]!r} instead of ValueError")
-    # ---- new_page without page_by
-    b = pm.func("RTFBody._validate_page_by_logic") if pm.has_func("RTFBody._validate_page_by_logic") else pm.func("RTFBody.__init__")
-    try:
-        ok_new = _construct(pm, "RTFBody", {"new_page": True, "page_by": ["alpha"]})
-        bad_new = _construct(pm, "RTFBody", {"new_page": True})
-        for o in ok_new:
-            if o[0] == "raise":
-                ctx.gap("R19.7", f"RTFBody(new_page=True, page_by=[...]) cannot be constructed in the model: {o[1]!r}")
-        for o in bad_new:
-            ctx.instance("R19.7", b.where(), f"RTFBody(new_page=True) without page_by: {o[0]}")
-            if o[0] == "return":
-                ctx.violation("R19.7", "RTFBody", "new_page/page_by", b.where(), "RTFBody no longer rejects new_page=True without page_by at construction")
-            elif not _is_value_error(o) and not is_artefact(o[1]):
-                ctx.violation("R19.2", "RTFBody", "new_page/page_by raises " + o[1].cls.mro_names()[0], b.where(), f"RTFBody(new_page=True) raises {o[1]!r} instead of ValueError")
-    except Unsupported as e:
-        ctx.gap("R19.7", f"RTFBody construction is outside the interpreted subset: {e}")
-    # ---- figure file existence
-    f = pm.func("RTFFigure.validate_figure_data") if pm.has_func("RTFFigure.validate_figure_data") else pm.func("RTFFigure.__init__") if pm.has_func("RTFFigure.__init__") else None
-    fwhere = f.where() if f is not None else pm.cls("RTFFigure").path + ":1"
-
-    def fig(kwargs):
-        def make():
-            it = PydInterp(pm)
-            fs = FS(it, {"/work/fig.png": "PNG", "/work/fig2.png": "PNG"})
-            it.externals.update(fs.externals())
-            kw = {k: ([fs.Path(x[5:]) if isinstance(x, str) and x.startswith("PATH:") else x for x in v] if isinstance(v, list)
-                      else (fs.Path(v[5:]) if isinstance(v, str) and v.startswith("PATH:") else v)) for k, v in kwargs.items()}
-            return it, (lambda: it.call(it.class_val(pm.cls("RTFFigure")), [], kw)), it
-        return [o for _, o, _ in run_valuations(make)]
-    try:
-        for o in fig({"figures": "/work/fig.png"}) + fig({"figures": ["/work/fig.png", "PATH:/work/fig2.png"]}):
-            if o[0] == "raise":
-                ctx.gap("R19.7", f"RTFFigure with existing files cannot be constructed in the model: {o[1]!r}")
-        for label, kw in (("a missing file", {"figures": "/work/missing.png"}), ("a missing file given as Path", {"figures": "PATH:/work/missing.png"}),
-                          ("a missing file after an existing one", {"figures": ["/work/fig.png", "/work/missing.png"]})):
-            for o in fig(kw):
-                names = o[1].cls.mro_names() if o[0] == "raise" and o[1].cls is not None else []
-                ctx.instance("R19.7", fwhere, f"RTFFigure with {label}: {o[0]} {names[:1]}")
-                if o[0] == "return":
-                    ctx.violation("R19.7", "RTFFigure", "figure existence", fwhere, f"RTFFigure with {label} is constructed; no FileNotFoundError at construction")
-                elif "FileNotFoundError" not in names and "ValueError" not in names and not is_artefact(o[1]):
-                    ctx.violation("R19.2", "RTFFigure", f"figure existence raises {names[0] if names else '?'}", fwhere, f"RTFFigure with {label} raises {o[1]!r}")
-    except Unsupported as e:
-        ctx.gap("R19.7", f"RTFFigure construction is outside the interpreted subset: {e}")
-    ctx.floor("R19.7", 10)
 
 
 def r19_2_3(ctx: Ctx) -> None:
@@ -946,31 +619,245 @@ def r19_2_3(ctx: Ctx) -> None:
     ctx.floor("R19.2", 30)
 
 
+
+
+# ---------------------------------------------------------------------------------------------- R19.6 validator table = emitter table
+def r19_6(ctx: Ctx, rule: str = "R19.6", ev: "Evaluator | None" = None) -> None:
+    """the legal set a validator admits must be contained in the table the emitter indexes with the value (exhaustive over the finite tables)"""
+    pm = ctx.pm
+    ev = ev or Evaluator(ctx)
+    # emitter side: TABLE[self.<field>] inside the model classes
+    emit: dict[tuple[str, str], tuple[str, FuncInfo, ast.AST]] = {}
+    for model in ("TextContent", "Cell", "Row", "Border"):
+        ci = pm.cls(model)
+        for fi in ci.methods.values():
+            for n in walk_no_nested(fi.node):
+                if isinstance(n, ast.Subscript) and isinstance(n.slice, ast.Attribute) and isinstance(n.slice.value, ast.Name) and n.slice.value.id == "self":
+                    emit[(model, n.slice.attr)] = (unparse(n.value), fi, n)
+    # binding: model field <- attribute (from constructor call sites)
+    bind: dict[str, set[tuple[str, str]]] = {}
+    for fi in pm.iter_funcs():
+        for c in walk_no_nested(fi.node):
+            if isinstance(c, ast.Call) and dotted(c.func).split(".")[-1] in ("TextContent", "Cell", "Row", "Border"):
+                model = dotted(c.func).split(".")[-1]
+                for k in c.keywords:
+                    v = k.value
+                    if isinstance(v, ast.Name):
+                        v = _resolve_local(fi, v)
+                    if isinstance(v, ast.Call) and dotted(v.func).split(".")[-1] in ("get_broadcast_value", "get_attr") and v.args and isinstance(v.args[0], ast.Constant):
+                        bind.setdefault(v.args[0].value, set()).add((model, k.arg))
+    for attr, targets in sorted(bind.items()):
+        for (model, fld) in sorted(targets):
+            if (model, fld) not in emit:
+                continue
+            etab_txt, efi, enode = emit[(model, fld)]
+            etab = const_expr(pm, efi.module, enode.value)
+            if etab is NOC:
+                continue
+            cls = "TableAttributes" if pm.field_decl("TableAttributes", attr) is not None else "TextAttributes"
+            for vfi in validators_for(pm, cls, attr):
+                dt, rows, err = ev.rows(vfi)
+                if rows is None:
+                    continue
+                seen = set()
+                for key, rec in dt.cmp.items():
+                    if rec[0] != "member" or isinstance(rec[2], Sym) or isinstance(rec[1], str):
+                        continue
+                    tn = dt.table_name(rec[2])
+                    if tn in seen:
+                        continue
+                    seen.add(tn)
+                    try:
+                        extra = sorted(set(rec[2]) - set(etab), key=str)
+                    except TypeError:
+                        continue
+                    ctx.instance(rule, vfi.where(), f"{attr}: validator table {tn} vs emitter {model}.{fld} -> {etab_txt}; accepted-but-unencodable: {extra}")
+                    if extra:
+                        ctx.violation(rule, f"{cls}.{attr}", f"{vfi.name} vs {etab_txt}: {extra}", vfi.where(),
+                                      f"{attr} is validated against {tn} but emitted through {etab_txt} ({model}.{fld}); values {extra} are accepted at construction and raise at encode time")
+    ctx.floor(rule, 5)
+
+
+# ---------------------------------------------------------------------------------------------- R19.7 document-level cross-field checks
+def _val(row, key_pred):
+    """[(key, value)] of the atoms of a row selected by the predicate"""
+    return [(k, v) for k, v in row["val"].items() if key_pred(k)]
+
+
+def _raises_ok(pm, row) -> bool:
+    o = row["outcome"]
+    return isinstance(o, tuple) and o[0] == "raise" and _ok_exc(pm, o[1])
+
+
+def r19_7(ctx: Ctx, ev: Evaluator) -> None:
+    pm = ctx.pm
+    v = pm.func("RTFDocument.validate_column_names")
+    if v.model_validator_mode() != "after":
+        ctx.violation("R19.7", v.short, "not a model_validator(after)", v.where(), "validate_column_names is no longer run by pydantic after construction")
+    dt, rows, err = ev.rows(v)
+    if rows is None:
+        ctx.gap("R19.7", f"validate_column_names could not be evaluated symbolically: {err}")
+    else:
+        def atom(row, text):
+            for k, val in row["val"].items():
+                if k == text:
+                    return val
+            return None
+        df_none, fig_none = "self.df is None", "self.rtf_figure is None"
+        # ---- df xor figure
+        for want_df, want_fig, label in ((True, True, "neither"), (False, False, "df-and-figure")):
+            sel = [r for r in rows if atom(r, df_none) in (want_df, None) and atom(r, fig_none) in (want_fig, None)
+                   and not (atom(r, df_none) is None and atom(r, fig_none) is None)]
+            bad = [r for r in sel if not _raises_ok(pm, r)]
+            ctx.instance("R19.7", v.where(), f"validate_column_names: '{label}' ({len(sel)} valuation(s)) -> all raise ValueError: {not bad and bool(sel)}")
+            if not sel:
+                ctx.gap("R19.7", f"validate_column_names: the conditions `{df_none}` / `{fig_none}` were not re-identified")
+            elif bad:
+                ctx.violation("R19.7", v.short, label, v.where(), f"validate_column_names: no ValueError for '{label}' [" + ", ".join(f"{k[:40]}={x}" for k, x in bad[0]["val"].items())[:160] + "]")
+        # ---- multi-section shape checks
+        is_multi = "isinstance(self.df, list)"
+        body_list = "isinstance(self.rtf_body, list)"
+        ctxt = [r for r in rows if atom(r, df_none) is False and atom(r, fig_none) in (True, None)]
+        multi = [r for r in ctxt if atom(r, is_multi) is True]
+        single = [r for r in ctxt if atom(r, is_multi) is False]
+        if not multi or not single:
+            ctx.gap("R19.7", "validate_column_names: the single-/multi-section distinction `isinstance(self.df, list)` was not re-identified")
+        else:
+            bad = [r for r in multi if atom(r, body_list) is False and not _raises_ok(pm, r)]
+            n = sum(1 for r in multi if atom(r, body_list) is False)
+            ctx.instance("R19.7", v.where(), f"validate_column_names: 'body-list' ({n} valuation(s)) -> all raise ValueError: {not bad and n > 0}")
+            if n == 0 or bad:
+                ctx.violation("R19.7", v.short, "body-list", v.where(), "validate_column_names: no ValueError when df is a list but rtf_body is not")
+            len_keys = {k for r in multi for k in r["val"] if "len(self.df)" in k and "len(self.rtf_body)" in k}
+            sel = [r for r in multi if atom(r, body_list) is True and any((k in r["val"]) for k in len_keys)]
+            bad = []
+            for r in sel:
+                for k in len_keys:
+                    if k in r["val"]:
+                        rec = dt.cmp.get(k)
+                        differ = r["val"][k] if rec and rec[0] is ast.NotEq else (not r["val"][k] if rec and rec[0] is ast.Eq else None)
+                        if differ and not _raises_ok(pm, r):
+                            bad.append(r)
+            ctx.instance("R19.7", v.where(), f"validate_column_names: 'length' condition(s) {sorted(len_keys)[:2]} -> mismatch raises ValueError: {bool(len_keys) and not bad}")
+            if not len_keys or bad:
+                ctx.violation("R19.7", v.short, "length", v.where(), "validate_column_names: no ValueError when df and rtf_body lists differ in length")
+            # ---- grouping columns, single and multi section
+            for mode, rs in (("single", single), ("multi", [r for r in multi if atom(r, body_list) is True and not any(r["val"].get(k) is (dt.cmp[k][0] is ast.NotEq) for k in len_keys)])):
+                for grp in ("group_by", "page_by", "subline_by"):
+                    none_keys = {k for r in rs for k in r["val"] if k.endswith(f".{grp} is None")}
+                    mem_keys = {k for r in rs for k in r["val"] if (dt.cmp.get(k) or ("",))[0] == "member" and f".{grp}[" in path_of(dt.cmp[k][1])}
+                    if not none_keys and not mem_keys:
+                        ctx.instance("R19.7", v.where(), f"{mode}-section: {grp} is never read")
+                        ctx.violation("R19.7", "RTFDocument._validate_section_columns", f"{grp} missing", v.where(),
+                                      f"{mode}-section documents: no ValueError for a {grp} column missing from the data ({grp} is never compared with the frame's columns)")
+                        continue
+                    # the container the membership is tested against
+                    for k in sorted(mem_keys):
+                        cont = dt.cmp[k][2]
+                        is_cols = isinstance(cont, Sym) and not isinstance(cont, CallSym) and cont.path.endswith(".columns")
+                        is_coll = isinstance(cont, CallSym) and cont.meth in ("set", "list", "tuple", "frozenset") and cont.args and isinstance(cont.args[0], Sym) and cont.args[0].path.endswith(".columns")
+                        ctx.instance("R19.7", v.where(), f"{mode}-section: {grp} membership tested against `{path_of(cont)[:60]}`")
+                        if not (is_cols or is_coll):
+                            ctx.violation("R19.7", "RTFDocument._validate_section_columns", f"{grp} container {path_of(cont)[:60]}", v.where(),
+                                          f"{grp} membership is tested against `{path_of(cont)[:80]}`, not the frame's column list (a string container makes it a substring test)")
+                    bad = []
+                    for r in rs:
+                        if any(r["val"].get(k) is True for k in none_keys):
+                            continue                                     # grp not set
+                        if any(r["val"].get(k) is True for k in mem_keys):
+                            continue                                     # the generic column exists
+                        if not _raises_ok(pm, r):
+                            bad.append(r)
+                    ctx.instance("R19.7", v.where(), f"{mode}-section: {grp} set and its generic column not in the data -> ValueError on every such valuation: {not bad}")
+                    if bad:
+                        ctx.violation("R19.7", "RTFDocument._validate_section_columns", f"{grp} not rejected ({mode})", v.where(),
+                                      f"{mode}-section documents: a {grp} column missing from the data is not rejected on the path [" +
+                                      ", ".join(f"{k[-46:]}={x}" for k, x in bad[0]["val"].items() if ".df is None" not in k and "figure" not in k)[:220] + "]")
+    # ---- new_page without page_by: reached from RTFBody's construction
+    b_init = pm.find_method("RTFBody", "__init__")
+    done = False
+    for fi in ([b_init] if b_init is not None else []) + [f for f in construction_hooks(pm, "RTFBody") if f is not b_init]:
+        dtb, rws, err = ev.rows(fi, limit=40000)
+        if rws is None:
+            continue
+        pk = {k for r in rws for k in r["val"] if k.endswith("page_by is None")}
+        nk = {k for r in rws for k in r["val"] if "new_page" in k}
+        if not pk or not nk:
+            continue
+        sel = [r for r in rws if any(r["val"].get(k) is True for k in pk) and any(r["val"].get(k) is True for k in nk if (dtb.cmp.get(k) or ("",))[0] == "truth")]
+        bad = [r for r in sel if not _raises_ok(pm, r)]
+        ctx.instance("R19.7", fi.where(), f"{fi.short}: new_page without page_by ({len(sel)} valuation(s)) -> all raise ValueError: {bool(sel) and not bad}")
+        if sel:
+            done = True
+            if bad:
+                ctx.violation("R19.7", "RTFBody._validate_page_by_logic", "new_page/page_by", fi.where(), "RTFBody does not reject new_page=True without page_by on every construction path")
+            break
+    if not done:
+        # fallback: the check exists as a function and lies on the construction call graph
+        try:
+            b = pm.func("RTFBody._validate_page_by_logic")
+        except AnalysisError:
+            b = None
+        reached = b is not None and _reaches(pm, "RTFBody.__init__", b.short)
+        okb = False
+        if b is not None:
+            dtb, rws, err = ev.rows(b)
+            if rws:
+                sel = [r for r in rws if any(k.endswith("page_by is None") and x is True for k, x in r["val"].items()) and any("new_page" in k and x is True for k, x in r["val"].items())]
+                okb = bool(sel) and all(_raises_ok(pm, r) for r in sel)
+        ctx.instance("R19.7", b.where() if b else "src/rtflite/input.py:0", f"RTFBody: new_page-without-page_by raise {'present' if okb else 'MISSING'}, reached from __init__: {reached}")
+        if not (okb and reached):
+            ctx.violation("R19.7", "RTFBody._validate_page_by_logic", "new_page/page_by", b.where() if b else "src/rtflite/input.py:0", "RTFBody no longer rejects new_page=True without page_by at construction")
+    # ---- figure file existence
+    figs = [f for f in construction_hooks(pm, "RTFFigure")]
+    okf = False
+    for f in figs:
+        dtf, rws, err = ev.rows(f)
+        if rws is None:
+            continue
+        ek = {k for r in rws for k in r["val"] if (dtf.cmp.get(k) or ("",))[0] == "truth" and isinstance(dtf.cmp[k][1], CallSym) and dtf.cmp[k][1].meth in ("exists", "is_file", "isfile")}
+        if not ek:
+            continue
+        sel = [r for r in rws if any(r["val"].get(k) is False for k in ek)]
+        bad = [r for r in sel if not _raises_ok(pm, r)]
+        ctx.instance("R19.7", f.where(), f"{f.short}: a figure path that does not exist ({len(sel)} valuation(s)) -> FileNotFoundError/ValueError on all: {bool(sel) and not bad}")
+        if sel and not bad:
+            okf = True
+        elif bad:
+            ctx.violation("R19.7", f.short, "figure existence", f.where(), "RTFFigure does not raise FileNotFoundError for a missing figure file on every path")
+            okf = True
+    if not okf:
+        f0 = figs[0] if figs else None
+        ctx.violation("R19.7", f0.short if f0 else "RTFFigure", "figure existence", f0.where() if f0 else "src/rtflite/input.py:0",
+                      "RTFFigure no longer tests at construction that the figure files exist (no existence test reaches a raise)")
+    ctx.floor("R19.7", 10)
+
+
+def _reaches(pm, src: str, dst: str) -> bool:
+    from ..callgraph import CallGraph
+    try:
+        return dst in CallGraph(pm).reachable([src])
+    except Exception:
+        return False
+
+
 def check(ctx: Ctx) -> None:
     ctx.explain(
-        "R19.1/R19.4/R19.5 the constructors of the configuration classes are interpreted with a model of pydantic's BaseModel.__init__ "
-        "(before/after field validators, model validators, defaults): for each constrained field named by the property invalid sample "
-        "values in scalar, flat and nested position must make construction raise ValueError, for the declaring class and the concrete "
-        "components inheriting the field; R19.2 every raise in validators constructs ValueError/FileNotFoundError; R19.3 every cls./self. "
-        "attribute read in a validator resolves (class, MRO, pydantic API); R19.6 accepted set is contained in the emitter's table; "
-        "R19.7 RTFDocument / RTFBody / RTFFigure are constructed in the model with grouping columns missing from the data (substring and "
-        "multi-section cases included), df xor figure, mismatched list lengths, new_page without page_by, missing figure files.")
-    ctx.explain("Method for R19.1/R19.4/R19.5/R19.7: " + METHOD + ". pydantic is a model of BaseModel.__init__ (model validators, before/after "
-                "field validators in pydantic's order, defaults, ValueError/AssertionError -> ValidationError, value constraints expressed by "
-                "Literal / Field bounds / Annotated / Enum); type coercion is not modelled. The verdict is a BOUNDED SAMPLE: per constraint kind a "
-                "fixed set of invalid values (listed in coverage.interpretation.samples) in scalar / flat / nested position, for the declaring "
-                "class and each concrete leaf class; R19.7 a fixed list of document configurations.")
-    ctx.assume("pydantic runs field validators for provided values and converts ValueError into ValidationError (a ValueError)")
-    ctx.assume("the pydantic model is faithful for values that already have an admitted type; data frames are models exposing column names only; "
-               "figure files live in an in-memory file-system model")
-    ctx.undecided("that every invalid value at every position is rejected: only the sample values per constraint kind are decided (bounded sample, not "
-                  "exhaustive); pydantic's own type validation and coercion; fields not named in the matrix")
-    _STATS.update({"constructions": 0, "runs": 0, "forks": 0, "classes": set(), "samples": {}})
-    r19_1(ctx)
+        "R19.1/R19.4/R19.5 rejection coverage: for every constrained field named by the property the validators that reach it (field_validator functions of the class and its bases, "
+        "constraints in the declaration, and - only if those do not reject - the hooks that run after construction: package __init__, model_validator(after)) are evaluated "
+        "symbolically on an uninterpreted value; for every admitted position (scalar / flat / nested, read from the declared type; the generic element of the traversal) and every "
+        "region of the constraint kind (not in the legal set; negative, zero; length 0, 1..n-1, >n; non-empty non-colour) the conditions determined by shape and region are fixed, all "
+        "other consulted conditions are enumerated, and every such valuation must end in `raise ValueError` (sub)class. The legal sets are the finite tables of the source. "
+        "R19.2 raise discipline, R19.3 attribute resolvability on raising paths (structural); R19.6 validator table within emitter table (exhaustive); R19.7 document-level checks "
+        "as decision tables over symbolic conditions (df/figure None, list-ness, length mismatch, grouping attribute set, generic column in df.columns, new_page/page_by, figure path exists).")
+    declare_sdt(ctx)
+    ctx.assume("pydantic runs the after-mode field validators of a class and its bases for provided values and converts ValueError into ValidationError (a ValueError); before-mode "
+               "validators only normalise the shape (scalar -> list -> nested list) and are not analysed beyond R19.2")
+    ctx.assume("conditions on the validated value other than those fixed by shape and region are treated as free (all valuations must reject); a mixed outcome that hinges on a "
+               "condition the evaluator cannot interpret is an analysis gap")
+    ctx.undecided("pydantic's own type validation and coercion; fields not named in the matrix; the content of before-mode normalisers")
+    ev = Evaluator(ctx)
+    r19_1(ctx, ev)
     r19_2_3(ctx)
-    r19_6(ctx)
-    r19_7(ctx)
-    cover(ctx, constructions=_STATS["constructions"], interpreted_runs=_STATS["runs"], forks_on_unknown_conditions=_STATS["forks"],
-          classes_constructed=sorted(_STATS["classes"]), samples=dict(_STATS["samples"]), positions=["scalar", "flat list", "nested list"],
-          verdict_kind="bounded sample (not exhaustive over values)",
-          fork_enumeration="all valuations of the unknown conditions consulted (at most 48 runs per construction, else analysis gap)")
+    r19_6(ctx, ev=ev)
+    r19_7(ctx, ev)
